@@ -4,10 +4,19 @@ import json
 # ---------------------------------------------------------------------------
 # analysis hooks: (spec, res, input line, driver verdict)
 
+def _note_tr(res, inp, ver):
+    """the translated matcher (regenerated from the source) against the hand-written model"""
+    if "tr" in ver:
+        res.extra["tr_evals"] = res.extra.get("tr_evals", 0) + 1
+        if ver["tr"] is False:
+            res.extra.setdefault("tr_diffs", []).append({"p": inp.get("p"), "f": inp.get("f"), "bs": inp.get("bs"), "diff": ver.get("trDiff")})
+
+
 def analyze_match(oracles):
     def f(spec, res, inp, ver):
         if not ver.get("corr", True):
             res.diffs.append((inp, ver))
+        _note_tr(res, inp, ver)
         for o in oracles:
             if o == "probe":
                 pr = inp.get("probe") or {}
@@ -23,6 +32,7 @@ def analyze_generic(spec, res, inp, ver):
     """driver verdicts of the form {"corr":bool, "prop":{name:bool}, ...}"""
     if not ver.get("corr", True):
         res.diffs.append((inp, ver))
+    _note_tr(res, inp, ver)
     for o, v in (ver.get("prop") or {}).items():
         if v is False and (spec.get("oracles") is None or o in spec["oracles"]):
             res.failing.append((o, inp, ver))
